@@ -3,7 +3,7 @@
 # Applies a patch to a scratch worktree of /repo (HEAD), runs the check against it, prints the verdict, removes the worktree.
 set -u
 patch=$(readlink -f "$1"); cid=$2; shift 2
-wt=$(mktemp -d /tmp/mut-XXXXXX); rmdir "$wt"
+wt=/tmp/mut-${MUT_LANE:-$cid}; git -C /repo worktree remove --force "$wt" >/dev/null 2>&1; rm -rf "$wt"
 git -C /repo worktree add --detach "$wt" HEAD >/dev/null 2>&1 || { echo "cannot create worktree"; exit 2; }
 if ! git -C "$wt" apply "$patch"; then echo "PATCH DOES NOT APPLY"; git -C /repo worktree remove --force "$wt"; exit 2; fi
 cd "$(dirname "$0")/.."
